@@ -584,6 +584,15 @@ Linear_Expression_Impl<Row>
                  Coefficient_traits::const_reference c1,
                  Coefficient_traits::const_reference c2,
                  dimension_type start, dimension_type end) {
+  if (static_cast<const void*>(this) == static_cast<const void*>(&y)) {
+    // Aliased operands (e.g., `e -= e'): the operations on rows
+    // require two distinct rows.
+    const Linear_Expression_Impl<Row2> y_copy(y);
+    Parma_Polyhedra_Library::linear_combine(row, y_copy.row,
+                                            c1, c2, start, end);
+    PPL_ASSERT(OK());
+    return;
+  }
   Parma_Polyhedra_Library::linear_combine(row, y.row, c1, c2, start, end);
   PPL_ASSERT(OK());
 }
@@ -599,6 +608,12 @@ Linear_Expression_Impl<Row>
   PPL_ASSERT(start <= end);
   PPL_ASSERT(end <= row.size());
   PPL_ASSERT(end <= y.row.size());
+  if (static_cast<const void*>(this) == static_cast<const void*>(&y)) {
+    // Aliased operands: the operations on rows require two distinct rows.
+    const Linear_Expression_Impl<Row2> y_copy(y);
+    linear_combine_lax(y_copy, c1, c2, start, end);
+    return;
+  }
   if (c1 == 0) {
     if (c2 == 0) {
       PPL_ASSERT(c1 == 0);
